@@ -16,3 +16,13 @@ impl ChannelQueue {
     &&& (self.state == ChannelQueueState::ClosedEmpty ==> self.queue@.len() == 0)
   }
 }
+
+// ---- waiters: who may be woken (C07: a fiber is resumed only for an operation that can now proceed) ----
+pub open spec fn has_runnable(l: Seq<Ref<ChannelWaiter>>) -> bool { exists|k: int| 0 <= k < l.len() && waiter_runnable(#[trigger] l[k]) }
+
+impl ChannelQueue {
+  /// a parked sender can proceed: the channel is open and has room
+  pub open spec fn sender_can_progress(&self) -> bool { !self.closed() && self.queue@.len() < self.capacity }
+  /// a parked receiver can proceed: there is a value, or the channel is closed (it will get nil)
+  pub open spec fn receiver_can_progress(&self) -> bool { self.queue@.len() > 0 || self.closed() }
+}
